@@ -19,7 +19,7 @@ func init() {
 		Explanation: "Structural necessary conditions of 'Reset returns the world to a reusable empty state': " +
 			"(R1) field exhaustiveness of the reset chain discovered from World.Reset: for every struct on the chain, every field is reset by the struct's reset function (assigned, cleared, or its own reset called) or listed as persistent with a reason; early returns in reset functions are only the nothing-to-reset idiom; a field in neither class fails closed; " +
 			"(R2) every registered filter and every observer of every event slice is detached (its id set to the unregistered marker) and counters and aggregates are cleared; (R3) no loop bound of a narrow unsigned type can wrap around; " +
-			"(R4) relation archetypes reset every active table and then purge all lookup containers (C04/R3); (R5) the lock test precedes everything (C07/R1); (R6 = C06/R8) the reset chain does not operate on range-value copies of the structures it resets. Not decided: equivalence with a fresh world over a second history.",
+			"(R4) relation archetypes reset every active table - in a loop that visits the whole table list, forwards or backwards - and then purge all lookup containers (C04/R3); (R5) the lock test precedes everything (C07/R1); (R6 = C06/R8) the reset chain does not operate on range-value copies of the structures it resets. (= C04/R14) the active-table list is walked (free flags set) before it is emptied. Not decided: equivalence with a fresh world over a second history.",
 		TrustedBase: []string{"go/types", "frozen classification of the ~90 fields on the reset chain (reset / persistent with reason)", "interval arithmetic over Go's integer types"},
 		Rules: []Rule{
 			{ID: "C16/R1", Run: c16r1, Min: 1},
@@ -29,6 +29,7 @@ func init() {
 			{ID: "C16/R4b", Run: c04r3, Min: 1},
 			{ID: "C16/R5", Run: c16r5, Min: 1},
 			{ID: "C06/R8", Run: c06r8, Min: 1},
+			{ID: "C04/R14", Run: c04r14, Min: 1},
 		},
 	})
 }
@@ -106,6 +107,16 @@ type resetInfo struct {
 	handled map[string]bool
 	nodes   map[string][]ast.Node // per handled key: the nodes of f (statements or calls) that handle it
 	callees []*core.Func          // reset functions of field types
+	wiped   []string              // persistent fields replaced by a whole-value store that does not carry them over
+}
+
+func containsStr(list []string, s string) bool {
+	for _, x := range list {
+		if x == s {
+			return true
+		}
+	}
+	return false
 }
 
 func c16r1(c *core.Ctx) {
@@ -137,6 +148,44 @@ func c16r1(c *core.Ctx) {
 				}
 				switch x := n.(type) {
 				case *ast.AssignStmt, *ast.IncDecStmt:
+					// a whole-value store through the receiver (*r = newT(), *r = T{..}) resets every field of the
+					// type - including those documented to survive the reset, unless the stored value carries them over
+					if as, isAs := x.(*ast.AssignStmt); isAs && len(as.Lhs) == 1 && len(as.Rhs) == 1 && g.Sig != nil && g.Sig.Recv() != nil {
+						if st, isStar := ast.Unparen(as.Lhs[0]).(*ast.StarExpr); isStar {
+							if id := identOf(st.X); id != nil && m.Info.ObjectOf(id) == types.Object(g.Sig.Recv()) {
+								if nt := m.Prog.LookupType(recvType); nt != nil {
+									if stt, ok := nt.Underlying().(*types.Struct); ok {
+										fields := valueFields(m, g, as.Rhs[0])
+										if fields == nil {
+											if call, isCall := ast.Unparen(as.Rhs[0]).(*ast.CallExpr); isCall {
+												if _, cal, _ := m.Callee(call); cal != nil && cal.Body != nil {
+													core.InspectNoLits(cal.Body, func(y ast.Node) bool {
+														if rs, isR := y.(*ast.ReturnStmt); isR && len(rs.Results) == 1 && fields == nil {
+															fields = valueFields(m, cal, rs.Results[0])
+														}
+														return true
+													})
+												}
+											}
+										}
+										for i := 0; i < stt.NumFields(); i++ {
+											k := m.FieldKey(stt.Field(i))
+											mark(k)
+											keeps := false
+											if v, has := fields[k]; has {
+												if sel, isSel := ast.Unparen(v).(*ast.SelectorExpr); isSel && fieldKeyOf(m, sel) == k {
+													keeps = true
+												}
+											}
+											if c16Persistent[k] != "" && !keeps {
+												ri.wiped = append(ri.wiped, k)
+											}
+										}
+									}
+								}
+							}
+						}
+					}
 					for _, s := range m.DirectStores(g, x) {
 						for _, k := range s.Path.Fields() {
 							if ownerOf(k) == recvType || (recvType == "archetype" && ownerOf(k) == "archetypeData") {
@@ -249,6 +298,8 @@ func c16r1(c *core.Ctx) {
 				key := m.FieldKey(st.Field(i))
 				subject := key + " in " + ri.f.Name
 				switch {
+				case c16Persistent[key] != "" && containsStr(ri.wiped, key):
+					c.Violation("C16/R1", subject, c.At(ri.f.Pos()), fmt.Sprintf("%s replaces the whole value and with it %s, which is documented to survive a Reset (%s); ids and registrations handed out before the Reset would name other things afterwards", ri.f.Name, key, c16Persistent[key]))
 				case ri.handled[key]:
 					c.OK("C16/R1", subject, c.At(ri.f.Pos()), "reset by the chain")
 				case c16Persistent[key] != "":
@@ -619,9 +670,18 @@ func c16r4(c *core.Ctx) {
 		switch x := n.(type) {
 		case *ast.ForStmt, *ast.RangeStmt:
 			hasCond := false
+			// the loop visits every active table: a loop over all elements (or all indices) of the archetype's
+			// table list, forwards or backwards - not one that starts later or stops earlier
+			full := false
+			if src, _, ok := elementLoop(m, x); ok && fieldKeyOf(m, src) == "tableIDs.tables" {
+				full = true
+			}
+			if src, _, ok := reverseLoop(m, x); ok && fieldKeyOf(m, src) == "tableIDs.tables" {
+				full = true
+			}
 			ast.Inspect(x, func(y ast.Node) bool {
 				if call, ok := y.(*ast.CallExpr); ok {
-					if _, ok := callTo(m, call, tr.Reset); ok {
+					if _, ok := callTo(m, call, tr.Reset); ok && full {
 						loopReset = true
 					}
 				}
